@@ -1626,6 +1626,8 @@ fn catalogue_part2(v: &mut Vec<Entry>) {
         &["-TERM", pid], &["-15", pid], &["-15", "--", pid], &["-SIGTERM", pid], &["-n", "SIGTERM", pid],
     ]));
     v.push(e("kill").manual(&[&["-s", "0", pid][..], &["-s0", pid], &["-n", "0", pid], &["-n0", pid], &["-0", pid], &["-s", "0", "--", pid], &["-0", "--", pid]]));
+    // operands that start with a hyphen (negative process IDs) after `--`: -1 = every process
+    v.push(e("kill").manual(&[&["-s", "0", "--", "-1"][..], &["-s0", "--", "-1"], &["-n", "0", "--", "-1"], &["-n0", "--", "-1"], &["-0", "--", "-1"], &["-s", "0", "--", "-1", pid], &["-0", "--", pid, "-1"]]).exp(Exp::Ok));
     v.push(e("kill").manual(&[&["-l"][..], &["-l", "--"]]).bad(&["-l", "-Z"], "malformed-unknown-short").bad(&["-Z", "-l"], "malformed-unknown-short"));
     v.push(e("kill").manual(&[&["-l", "2", "15"][..], &["-l", "--", "2", "15"]]));
     v.push(e("kill").manual(&[&["-v"][..], &["-l", "-v"], &["-v", "-l"], &["-lv"], &["-vl"], &["-v", "--"], &["-lv", "--"]]));
